@@ -2,7 +2,7 @@
    Statements only; proofs are in Proofs/ValidateOverlap.v and Proofs/ValidateRules.v. *)
 From Coq Require Import List NArith ZArith String Bool.
 From GQL Require Import Exec.Syntax Validate.VSyntax Validate.Overlap Validate.OverlapSpec Validate.Rules
-     Proofs.ValidateOverlap Proofs.ValidateRules.
+     Exec.Exec Proofs.ValidateOverlap Proofs.ValidateRules Proofs.ValidateMerge.
 Import ListNotations.
 Open Scope string_scope.
 
@@ -28,6 +28,22 @@ Theorem C02_overlap_decomposition_generic : forall S D base,
   ((forall s, sets s -> within S D base s) <-> (forall s, sets s -> L1 S D base s)).
 Proof. exact decomposition_iff. Qed.
 Print Assumptions C02_overlap_decomposition_generic.
+
+(* L0, merge safety, one level (partial: the recursion into the merged sub-selections of a
+   group is not stated).  If a selection set passes L1 and its parent type matches the
+   object type, then everything the executor's CollectFields (Exec.collect: any variables,
+   any visited set, any fuel) groups under one response key for that object type has one
+   field name and equal arguments -- what plan.go relies on when it merges field ASTs. *)
+Theorem C02_merge_safe_partial : forall S D,
+  NoDup (map fr_name (d_frags D)) ->
+  forall (s : fset) obj fuel vars visited g v,
+  L1 S D (base2 S) s ->
+  pt_ok S obj (fst s) ->
+  collect fuel S D vars obj (snd s) visited [] = Some (g, v) ->
+  forall k os o1 o2, In (k, os) g -> In o1 os -> In o2 os ->
+    oc_name o1 = oc_name o2 /\ same_args (oc_args o1) (oc_args o2) = true.
+Proof. exact merge_safe_level. Qed.
+Print Assumptions C02_merge_safe_partial.
 
 (* Simple rules: the rule's model reports an error exactly when the rule is violated. *)
 Theorem C02_rule_iff_unique_operation_names : forall W,
